@@ -49,6 +49,14 @@ Theorem C15_writer :
 Proof. exact (fun p => conj (write_frame_ok p) (write_frame_over p)). Qed.
 Print Assumptions C15_writer.
 
+(* ... also over a transport that accepts the frame in pieces: whatever positive number of bytes each
+   Write call takes, the bytes on the wire are [frame p], all of it *)
+Theorem C15_writer_short_writes :
+  forall p lims, valid_payload p -> Forall (fun l => 1 <= l)%nat lims ->
+  write_frame_short p lims = Ok (frame p).
+Proof. exact write_frame_short_ok. Qed.
+Print Assumptions C15_writer_short_writes.
+
 (* non-vacuity: two frames split into awkward chunks *)
 Example C15_example :
   read_frames 2 [[0;0]; [0]; [2;7;8;0]; [0;0;1]; [9]; [5;5]]%N
